@@ -177,7 +177,8 @@ def r16_3(run):
     tab = SpaghettiTable(init)
     run.floor('R16.3', 'microdescriptor FSM states', len(tab.states), 4)
     run.floor('R16.3', 'microdescriptor FSM transitions', len(tab.trans), 18)
-    nested = dict((c.name, c) for c in init.children)
+    nested = dict(init.module.functions)      # (a matcher / handler may live at module level instead of inside __init__)
+    nested.update((c.name, c) for c in init.children)
     lambdas = dict((id(c.node), c) for c in init.children if isinstance(c.node, ast.Lambda))
 
     def resolver(call, unit):
@@ -353,8 +354,22 @@ def r16_5(run):
     okd = False
     for n in dup:
         for cn in g.nodes_containing(n):
-            gd = g.guarded_by(cn, lambda t: isinstance(t, ast.Compare) and isinstance(t.ops[0], ast.In) and dotted(t.comparators[0]) == 'self.routers')
-            okd = okd or any(lab == 'T' for _, lab in gd)
+            okd = okd or established(g, cn, 'member', lambda t: dotted(t.comparators[0]) == 'self.routers', positive=True)
+    # the same decision written as a conditional expression: routers[name] = None if <name already there> else router
+    defs_cr = local_defs(cr)
+    for n in stores:
+        v = n.value
+        if isinstance(v, ast.IfExp):
+            tst = v.test
+            neg = False
+            if isinstance(tst, ast.UnaryOp) and isinstance(tst.op, ast.Not):
+                tst, neg = tst.operand, True
+            if isinstance(tst, ast.Name) and single_def(defs_cr, tst.id) and single_def(defs_cr, tst.id)[0] == 'expr':
+                tst = single_def(defs_cr, tst.id)[1]
+            if isinstance(tst, ast.Compare) and len(tst.ops) == 1 and isinstance(tst.ops[0], (ast.In, ast.NotIn)) and dotted(tst.comparators[0]) == 'self.routers':
+                member_true = isinstance(tst.ops[0], ast.In) != neg
+                none_leg = v.body if member_true else v.orelse
+                okd = okd or is_none(none_leg)
     run.ob('R16.5', cr, cr.node, 'a nickname seen twice in the document resolves to nothing', okd, slot='dup-nick', message='duplicate nicknames are not blanked')
     idst = [n for n in g.real_nodes() if n.kind == 'stmt' and n.ast in stores and not src(n.ast.targets[0].slice).endswith('.name') and not is_none(n.ast.value)]
     ok = bool(idst) and any(_unconditional(g, n) for n in idst)
